@@ -196,7 +196,8 @@ fn check_matching_pattern(cx: &mut TypingContext, pattern: &MatchingPattern<()>,
 { unimplemented!() }
 
 //@extractblock crates/samlang-checker/src/main_checker.rs :: fn check_matching_pattern
-//@from #2 let (checked, abstract_node) =
+//@from not_mentioned_fields.remove(&field_name.name); let (checked, abstract_node) =
+//@replace not_mentioned_fields.remove(&field_name.name); ==>> ## R14: the preceding statement (bookkeeping of the fields not yet mentioned) only makes the anchor unique and is dropped
 //@to abstract_pattern_nodes[*field_order] = abstract_node;
 //@wrap fn place_named_field(cx: &mut TypingContext, pattern: &Box<MatchingPattern<()>>, wildcard_on_bad_pattern: bool, field_order_mapping: &HashMap<PStr, usize>, field_order: &usize, field_name: &Id, loc: &Location, shorthand: &bool, field_type: &Arc<Type>, checked_destructured_names: &mut Vec<pattern::ObjectPatternElement<Arc<Type>>>, abstract_pattern_nodes: &mut Vec<AbstractPatternNode>)
 //@contract
